@@ -33,7 +33,8 @@ def main(argv):
     prop, tier, name, mode = argv[:4]
     logging.disable(logging.CRITICAL)
     import aiocoap
-    assert os.path.realpath(aiocoap.__file__).startswith("/repo/"), aiocoap.__file__
+    from .api import repo_root
+    assert os.path.realpath(aiocoap.__file__).startswith(os.path.realpath(repo_root()) + "/"), aiocoap.__file__
     ob = find(prop, tier, name)
     t0 = time.time()
     out = {"obligation": name, "mode": mode}
